@@ -86,67 +86,67 @@ def escape_points(prog, f, store):
 # ---- guard providers -------------------------------------------------------------------------------------------
 
 def provider_run_limits(prog, what):
-    """the function that determines how many directory entries share a header leaves its loop on
-    |inode_num difference| > 32767, on SQFS_MAX_DIR_ENT entries, on a different inode block"""
+    """the function that determines how many directory entries share a header: (1) its result never exceeds
+    SQFS_MAX_DIR_ENT (256) -- interval analysis of the returned value, whatever the loop looks like; (2) some exit of
+    its loop depends on the inode number difference with the +-32767 limits (both signs) and (3) on the inode block
+    (inode_ref); the conditions may sit in the loop or in a helper whose answer ends the loop."""
+    from .interval import Intervals
     unit = prog.by_src.get("lib/sqfs/src/dir_writer.c")
     if unit is None:
         return False, "dir_writer.c missing"
+    best = None
     for f in unit.functions.values():
         if f.decl:
             continue
         f.build()
-        if not f.loops or not f.ret.startswith("i"):
+        if not f.loops or not f.ret.startswith("i") or f.ret == "i1":
             continue
-        diff = maxent = blk = False
+        # a count, not a status: nothing it returns is the result of a call or a negative constant
+        from .errflow import ret_values
+        leaves = ret_values(f)
+        if not leaves or any((v.is_inst and v.op == "call") or (v.is_const and v.is_int and v.sval < 0) for v in
+                             [strip_casts(x) for x in leaves]):
+            continue
+        # what the exits of the loops look at (helpers included)
+        flds, consts = set(), []
         for header, body in f.loops:
             for b in body:
-                for sx in b.succs:
-                    if sx in body:
+                if all(sx in body for sx in b.succs):
+                    continue
+                cond = b.term.ops[0] if b.term.ops else None
+                if cond is None or not cond.is_inst:
+                    continue
+                work = [cond]
+                sl = [cond] + list(backward_slice(cond, phi_control=False, limit=120))
+                for x in sl:
+                    if x.is_inst and x.op == "call" and x.callee:
+                        t = prog.fn(x.callee, unit)
+                        if t is not None and not t.decl and t.unit is unit:
+                            t.build()
+                            sl = sl + list(t.insts())
+                for x in sl:
+                    if not x.is_inst:
                         continue
-                    cond = b.term.ops[0] if b.term.ops else None
-                    if cond is None or not (cond.is_inst and cond.op == "icmp"):
-                        continue
-                    flds = {n for (_s, n) in fields_in_slice(cond)}
-                    consts = [o.sval for o in cond.ops if o.is_const and o.is_int]
-                    if "inode_num" in flds and any(abs(c) <= 32767 and abs(c) >= 32000 for c in consts):
-                        diff = True
-                    # entry count limit: the counter phi(0, phi+1) leaves the loop no later than at 256
-                    for o in cond.ops:
-                        o2 = _uncast(o)
-                        k = [x.uval for x in cond.ops if x.is_const and x.is_int]
-                        if not k:
-                            continue
-                        lim = None
-                        if o2.is_inst and o2.op == "add" and const_int(o2.ops[1]) == 1 and _is_counter(o2.ops[0]):
-                            # tested after the increment
-                            if cond.pred == "eq" and sx is b.term.x["succ"][0]:
-                                lim = k[0]
-                            elif cond.pred in ("uge",) and sx is b.term.x["succ"][0]:
-                                lim = k[0]
-                            elif cond.pred in ("ugt",) and sx is b.term.x["succ"][0]:
-                                lim = k[0] + 1
-                        elif _is_counter(o2):
-                            # tested on the counter itself (loop condition): continue while counter < K
-                            if cond.pred == "ult" and sx is b.term.x["succ"][1]:
-                                lim = k[0]
-                            elif cond.pred == "ule" and sx is b.term.x["succ"][1]:
-                                lim = k[0] + 1
-                            elif cond.pred in ("eq", "uge") and sx is b.term.x["succ"][0]:
-                                lim = k[0]
-                        if lim is not None and lim <= 256:
-                            maxent = True
-                        elif lim is not None:
-                            return False, "%s can let a header cover %d entries (limit is 256)" % (f.name, lim)
-                    if "inode_ref" in flds:
-                        blk = True
-        # both directions of the difference must be tested
-        ncmp = 0
-        for i in f.insts():
-            if i.op == "icmp" and any(o.is_const and o.is_int and abs(o.sval) == 32767 for o in i.ops):
-                ncmp += 1
-        if diff and maxent and blk and ncmp >= 2:
-            return True, "%s: exits on |inode number difference| > 32767 (both signs), %d entries, different inode block" % (f.name, 256)
-    return False, "no run-length function with the three loop exits found"
+                    if x.op == "load":
+                        q = strip_casts(x.ops[0])
+                        if q.is_inst and q.op == "getelementptr" and q.field():
+                            flds.add(q.field()[1])
+                    if x.op == "icmp":
+                        consts += [o.sval for o in x.ops if o.is_const and o.is_int]
+        if "inode_num" not in flds or "inode_ref" not in flds:
+            continue
+        lo_hi = Intervals(f).returned()
+        best = (f, lo_hi, consts)
+        if lo_hi[1] > 256:
+            return False, "%s can let a header cover up to %s entries (limit is 256): the interval analysis of its result gives [%d, %s]" % (
+                f.name, "an unbounded number of" if lo_hi[1] > (1 << 32) else str(lo_hi[1]), lo_hi[0],
+                "unbounded" if lo_hi[1] > (1 << 32) else str(lo_hi[1]))
+        n32767 = sum(1 for c in consts if abs(c) == 32767)
+        if n32767 < 2:
+            return False, "%s does not end a run on both signs of an inode number difference beyond 32767" % f.name
+        return True, "%s: result within [%d, %d]; exits on |inode number difference| > 32767 (both signs) and on a different inode block" % (
+            f.name, lo_hi[0], lo_hi[1])
+    return False, "no run-length function (a loop over entries that looks at inode_num and inode_ref) found in dir_writer.c"
 
 
 def _is_counter(v):
